@@ -81,7 +81,13 @@ def _fold_const_operation(
                 val = lhs.value.data / rhs.value.data
         case _:
             return
-    return arith.ConstantOp(builtin.FloatAttr(val, lhs.type))
+    try:
+        attr = builtin.FloatAttr(val, lhs.type)
+    except OverflowError:
+        # The exact result is finite but rounds to a value outside the range of the
+        # type: IEEE-754 round-to-nearest yields an infinity.
+        attr = builtin.FloatAttr(math.copysign(math.inf, val), lhs.type)
+    return arith.ConstantOp(attr)
 
 
 class FoldConstConstOp(RewritePattern):
